@@ -83,6 +83,7 @@ class C25(Property):
     drivers = ["Drivers/C25.lean"]
     translators = [cmdtmpl.generate]
     quick_budget_s = 900
+    thorough_budget_s = 3600
     rule = ("(1) render: random workdir/environment/command through the real _build_shell_command, create_command and "
             "CommandTemplateMap.get_command vs the Lean renderers assembled from the generated template pieces; (2) lexer: random "
             "lines over quotes, backslash, $, backtick, operators, blanks, unicode read by the Lean sh lexer and by /bin/sh (argv printed "
@@ -147,6 +148,19 @@ class C25(Property):
                 lines.append(f"cc {hx(wd) if wd is not None else '~'} {hx(' '.join(cmd))} {kv}".strip())
                 expect.append(hx(real))
                 meta.append(("create_command", sample))
+            if wd is not None and wd != "":
+                # the job script of QueueManagerConnector.run with the connector's own default template
+                from streamflow.deployment.connector import queue_manager as _qm
+                import ast as _ast, inspect as _inspect
+                if not hasattr(self, "_qm_default"):
+                    tree = _ast.parse(_inspect.getsource(_qm))
+                    self._qm_default = [k.value.value for n in _ast.walk(tree) if isinstance(n, _ast.Call) and _ast.unparse(n.func).endswith("CommandTemplateMap")
+                                        for k in n.keywords if k.arg == "default" and isinstance(k.value, _ast.Constant)][0]
+                cstr = sfu.create_command("QueueManagerConnector", cmd, environment=env, workdir=wd)
+                script = CommandTemplateMap(default=self._qm_default).get_command(command=cstr, environment=env, workdir=wd)
+                lines.append(f"qms {hx(wd)} {hx(' '.join(cmd))} {kv}".strip())
+                expect.append(hx(script))
+                meta.append(("queue-manager default job script", sample))
             tm = CommandTemplateMap(default="{{streamflow_environment}}|{{streamflow_workdir}}|{{streamflow_command}}")
             real = tm.get_command(command="C", environment=env, workdir="W")
             lines.append(f"gc {kv}".strip())
@@ -217,12 +231,12 @@ class C25(Property):
                 conn = LocalConnector("local", ctx.scratch)
                 loc = mini_location(MiniConnector())
                 return await conn.run(loc, command, environment=env, workdir=wd, capture_output=True, timeout=90)
-            if kind == "qm":
-                # what QueueManagerConnector.run submits: create_command, then the service template
+            if kind in ("qm", "qmd"):
+                # what QueueManagerConnector.run submits: create_command, then the service template (`qm`) or the built-in one (`qmd`)
                 cstr = sfu.create_command("QueueManagerConnector", command, environment=env, workdir=wd)
                 tm = CommandTemplateMap(default="#!/bin/sh\n\n{{streamflow_command}}",
                                         template_map={"svc": "#!/bin/sh\n{{streamflow_environment}}\n{{streamflow_command}}\n"})
-                script = tm.get_command(command=cstr, template="svc", environment=env, workdir=wd)
+                script = tm.get_command(command=cstr, template="svc" if kind == "qm" else None, environment=env, workdir=wd)
                 path = os.path.join(ctx.scratch, f"job{self.gen}_{self.nfile}.sh")
                 with open(path, "w") as f:
                     f.write(script)
@@ -312,12 +326,12 @@ class C25(Property):
         # boundary corpus first: one nasty thing at a time, on each path
         corpus = ["a b", "$HOME", "`id`", 'q"uote', "a'b", "back\\slash", "new\nline", "st*r", "semi;colon", "日本 😀"]
         for s in (corpus if ctx.tier == "thorough" or ctx.mode == "search" else corpus[:6]):
-            for kind in ("shell", "local", "qm"):
+            for kind in ("shell", "local", "qm", "qmd"):
                 plan.append((kind, dir_name(rng, False), {"K": s}))
             plan.append(("shell", s.replace("/", "_"), {"K": "v"}))
             plan.append(("local", s.replace("/", "_"), {"K": "v"}))
         for _ in range(n):
-            kind = rng.choice(["shell", "shell", "local", "qm"])
+            kind = rng.choice(["shell", "shell", "local", "qm", "qmd"])
             nasty_wd = rng.random() < 0.5
             env = {rng.choice(KEYS): (rand_string(rng) if rng.random() < 0.7 else tame_string(rng)) for _ in range(rng.choice([0, 1, 2, 3]))}
             plan.append((kind, dir_name(rng, nasty_wd), env))
@@ -529,6 +543,89 @@ class C25(Property):
             meta.append(("BaseConnector.run history", sample))
         return lines, expect, meta
 
+    # ---- (3b) redirections, runs without captured output, concurrent runs on one shell -----------------------------------------
+    def redirect_cases(self, ctx: Ctx, names: list[str]) -> None:
+        """LocalConnector.run with stdin / stdout / stderr given as file names (rendered by create_command as ` < f`, ` > f`, ` 2>f`)"""
+        for i, nm in enumerate(names):
+            if ctx.out_of_time():
+                ctx.extra["incomplete"] = True
+                break
+            self.nfile += 1
+            base = os.path.join(ctx.scratch, f"redir{self.gen}_{self.nfile}")
+            os.makedirs(base)
+            fin, fout, ferr = (os.path.join(base, pre + nm) for pre in ("in", "out", "err"))
+            payload = f"payload {i} é\nsecond line"
+            with open(fin, "w") as f:
+                f.write(payload)
+            script = os.path.join(base, "s.sh")
+            with open(script, "w") as f:
+                f.write("cat\necho ERR >&2\nexit 3\n")
+            same = i % 3 == 2   # stderr into the same file as stdout
+
+            async def go():
+                conn = LocalConnector("local", ctx.scratch)
+                return await conn.run(mini_location(MiniConnector()), ["sh", script], stdin=fin, stdout=fout, stderr=fout if same else ferr, timeout=60)
+            sample = {"op": "redirect", "name": nm, "stderr_same_file": same}
+            ctx.case(sample, ("redirect", nm, same), "redirect:stdin+stdout+stderr")
+            replay = {"op": "redirect", "name": nm, "same": same}
+            try:
+                run_watchdog(go, 90)
+            except Hang as e:
+                ctx.fail("local:create_command:redirection:hang", f"file names *{nm!r}: {e}", replay)
+                continue
+            except Exception as e:  # noqa: BLE001
+                ctx.fail("local:create_command:redirection-not-verbatim", f"file names *{nm!r}: {type(e).__name__}: {e}", replay)
+                continue
+            got_out = open(fout).read() if os.path.isfile(fout) else None
+            got_err = got_out if same else (open(ferr).read() if os.path.isfile(ferr) else None)
+            want_out = payload + ("ERR\n" if same else "")
+            if got_out != want_out or (not same and got_err != "ERR\n") or sorted(os.listdir(base)) != sorted(
+                    {"s.sh", os.path.basename(fin), os.path.basename(fout)} | ({os.path.basename(ferr)} if not same else set())):
+                ctx.fail("local:create_command:redirection-not-verbatim",
+                         f"file names in/out/err + {nm!r}: stdout file {got_out!r}, stderr file {got_err!r}, directory {sorted(os.listdir(base))}", replay)
+
+    def shell_discipline_cases(self, ctx: Ctx, n: int) -> None:
+        rng = ctx.rng
+        for i in range(n):
+            if ctx.out_of_time():
+                ctx.extra["incomplete"] = True
+                break
+            noise = "".join(rng.choice("abc \nxyz") for _ in range(rng.choice([0, 5, 3000])))
+            outs = [f"out-{k}-" + str(k) * rng.choice([1, 50, 2000]) for k in range(6)]
+            cnt = self._counter(ctx)
+
+            async def go():
+                conn = MiniConnector()
+                loc = mini_location(conn)
+                try:
+                    # (a) a run without captured output must consume its own output: the next command sees only its own
+                    r0 = await conn.run(loc, ["printf", "'%s'", shlex.quote(noise), ";", "echo", "x", ">>", shlex.quote(cnt)], capture_output=False, timeout=60)
+                    r1 = await conn.run(loc, ["printf", "'%s'", "AFTER"], capture_output=True, timeout=60)
+                    # (b) concurrent runs on the same persistent shell: each gets its own output and status
+                    rs = await asyncio.gather(*(conn.run(loc, ["printf", "'%s'", shlex.quote(o), ";", "(exit", f"{k})"], capture_output=True, timeout=60)
+                                                for k, o in enumerate(outs)))
+                    return r0, r1, rs
+                finally:
+                    await conn.undeploy(False)
+            sample = {"op": "shell-discipline", "noise": len(noise), "sizes": [len(o) for o in outs]}
+            ctx.case(sample, ("discipline", noise[:20], tuple(len(o) for o in outs)), "shell:no-capture-then-capture+concurrent")
+            replay = {"op": "shell-discipline", "noise": noise, "outs": outs}
+            try:
+                r0, r1, rs = run_watchdog(go, 200)
+            except Hang as e:
+                ctx.fail("shell:discipline:hang", str(e), replay)
+                continue
+            except Exception as e:  # noqa: BLE001
+                ctx.fail("shell:concurrent-runs:mixed-output-or-status", f"runs on one persistent shell raised {type(e).__name__}: {str(e)[:200]}", replay)
+                continue
+            execs = sum(1 for _ in open(cnt)) if os.path.exists(cnt) else 0
+            if r0 is not None or tuple(r1) != ("AFTER", 0) or execs != 1:
+                ctx.fail("shell:run-without-capture:leaves-output-or-runs-not-once",
+                         f"run(capture_output=False) returned {r0!r}, executed {execs} times; the next command returned {str(r1)[:120]!r} instead of ('AFTER', 0)", replay)
+            bad = [(k, str(r)[:80]) for k, (o, r) in enumerate(zip(outs, rs)) if tuple(r) != (o.strip(), k)]
+            if bad:
+                ctx.fail("shell:concurrent-runs:mixed-output-or-status", f"concurrent run() calls on one shell: wrong results {bad[:3]}", replay)
+
     # ---- (6a) large outputs through the process-per-command paths ------------------------------------------------------
     def large_output_case(self, ctx: Ctx, path: str, size: int, rc: int, newline: bool, bound: float = 45.0) -> dict:
         """`path` = local (LocalConnector.run) | direct (BaseConnector.run with a job name: create_command + run_in_subprocess)"""
@@ -647,14 +744,17 @@ class C25(Property):
         limit_failures(ctx)
         self._setup(ctx)
         big = ctx.tier == "thorough" or ctx.mode == "search"
-        lines, expect, meta = self.render_cases(ctx, 1500 if big else 300)
+        lines, expect, meta = self.render_cases(ctx, 1000 if big else 300)
         l2, e2, m2 = self.framing_cases(ctx, 400 if big else 90)
         lines, expect, meta = lines + l2, expect + e2, meta + m2
-        self.lexer_cases(ctx, 1500 if big else 250)
-        self.exec_cases(ctx, 300 if big else 16)
+        self.lexer_cases(ctx, 800 if big else 250)
+        self.exec_cases(ctx, 120 if big else 16)
         l3, e3, m3 = self.policy_cases(ctx, 12 if big else 3, 4 if big else 2)
         lines, expect, meta = lines + l3, expect + e3, meta + m3
         self.output_cases(ctx, 40 if big else 6)
+        rnames = ["plain", " file", "o$HOME", 'q"uote', "semi;colon", "it's", "st*r", "back\\slash"]
+        self.redirect_cases(ctx, rnames if big else rnames[:5])
+        self.shell_discipline_cases(ctx, 8 if big else 2)
         plan = [("local", 256 << 10, 3, False), ("direct", 256 << 10, 0, True), ("local", 1 << 20, 0, True), ("direct", 1 << 20, 7, False)]
         if big:
             plan += [(p, sz, rc, nl) for p in ("local", "direct") for sz, rc, nl in ((128 << 10, 1, True), (192 << 10, 0, False), (200 << 10, 0, True), (4 << 20, 2, False))]
